@@ -540,7 +540,9 @@ type HexString string
 
 func (h *HexString) Parse(lex *lexer.PeekingLexer) error {
 	token := lex.Peek()
-	if !strings.HasPrefix(token.Value, "hex:") {
+	// only a Hex token is a byte array: the unquoted value of the string "hex:41" also
+	// starts with "hex:" but is a string
+	if token.Type != hexTokenType || !strings.HasPrefix(token.Value, "hex:") {
 		return participle.NextMatch
 	}
 	lex.Next()
